@@ -382,10 +382,19 @@ func ResolvePackageNameVersionPin(pkgName string) ParsedConstraint {
 	// We only care if the version string ends with a release
 	// substring (`-rN`), as that indicates that it has a proper
 	// versioned depends/provides containing the package version.
+	//
+	// The version starts behind the whole operator run (=, >, <, >=, <=, ~),
+	// so that a constraint so:libfoo.so.1>1 is put on the same scale as the
+	// provide so:libfoo.so.1=6 it is compared with.
 	if strings.HasPrefix(pkgName, "so:") {
-		onlyPkgName, pkgVersion, found := strings.Cut(pkgName, "=")
-		if found && !endsWithReleaseStr.MatchString(pkgVersion) {
-			pkgName = onlyPkgName + "=0." + pkgVersion
+		if i := strings.IndexAny(pkgName, "=><~"); i >= 0 {
+			j := i
+			for j < len(pkgName) && strings.IndexByte("=><~", pkgName[j]) >= 0 {
+				j++
+			}
+			if !endsWithReleaseStr.MatchString(pkgName[j:]) {
+				pkgName = pkgName[:j] + "0." + pkgName[j:]
+			}
 		}
 	}
 
